@@ -3,9 +3,9 @@
    Proved here for ALL values: the prefix NLRI classes (INET, Label, IPVPN incl. ADD-PATH) and the
    (family, bytes) framing of the packed-bytes-first classes.  The inner value syntax of the other
    families and of the attributes is tied by the correspondence harness only (harness/c15.py). *)
-From Coq Require Import ZArith Bool List.
+From Coq Require Import ZArith Bool List Permutation.
 From ExaV Require Import gen.Gen_NlriRegistry model.Model_Nlri model.Model_Attr model.Model_NlriX spec.Spec_Nlri
-  proofs.Proofs_Nlri proofs.Proofs_NlriSpec proofs.Proofs_NlriX proofs.Proofs_AttrVal.
+  proofs.Proofs_Nlri proofs.Proofs_NlriSpec proofs.Proofs_NlriX proofs.Proofs_AttrVal proofs.Proofs_AttrSet.
 Import ListNotations.
 Open Scope Z_scope.
 
@@ -276,6 +276,24 @@ Example C15_example_vpls :
   /\ make_vpls (mkV [0;0;253;232;0;0;0;1] 5 1 8 10702) = [0;17;0;0;253;232;0;0;0;1;0;5;0;1;0;8;2;156;225].
 Proof. exact ex_vpls_ok. Qed.
 
+(* ---- set-like attributes: equality ignores the order (sameValuesAs sorts both sides), and everything that
+        is packed / rendered / indexed / hashed is computed from the sorted list, so it is a function of the
+        multiset of values and never of the order they were written or received in *)
+
+Theorem C15_set_rendering_of_multiset : forall l1 l2, Permutation l1 l2 -> csort l1 = csort l2.
+Proof. exact csort_of_multiset. Qed.
+
+Theorem C15_set_sort_idempotent : forall l, csort (csort l) = csort l.
+Proof. exact csort_idempotent. Qed.
+
+Theorem C15_set_eq_iff_permutation : forall a b, set_eqb a b = true <-> Permutation a b.
+Proof. exact set_eq_iff_permutation. Qed.
+
+Theorem C15_set_eq_same_encoding : forall s a b,
+  set_eqb a b = true ->
+  pack_item s (ICommunity a) = pack_item s (ICommunity b) /\ pack_item s (IExtended a) = pack_item s (IExtended b).
+Proof. exact set_eq_same_encoding. Qed.
+
 Print Assumptions C15_registry.
 Print Assumptions C15_family_index_matches_code.
 Print Assumptions C15_inet_roundtrip.
@@ -317,3 +335,7 @@ Print Assumptions C15_attr_roundtrip_extended.
 Print Assumptions C15_attr_roundtrip_large.
 Print Assumptions C15_attr_roundtrip_originator.
 Print Assumptions C15_attr_roundtrip_aggregator.
+Print Assumptions C15_set_rendering_of_multiset.
+Print Assumptions C15_set_sort_idempotent.
+Print Assumptions C15_set_eq_iff_permutation.
+Print Assumptions C15_set_eq_same_encoding.
